@@ -8,7 +8,7 @@ use serde::{Deserialize, Serialize};
 use serde_json::{Value, json};
 
 /// Server -> client event names in registration order (server channel = 2 + index without protocol check).
-pub const SEV: [&str; 5] = ["SOrd", "SInd", "SMap", "STrig", "SUnr"];
+pub const SEV: [&str; 6] = ["SOrd", "SInd", "SMap", "STrig", "SUnr", "SMTrig"];
 /// Client -> server event names in registration order (client channel = 1 + index without protocol check).
 pub const CEV: [&str; 4] = ["COrd", "CMap", "CTrig", "CUnr"];
 
@@ -33,6 +33,17 @@ impl MapEntities for SMap {
 #[derive(Event, Serialize, Deserialize, Clone, Debug)]
 pub struct STrig {
     pub id: u32,
+}
+/// Mapped server trigger: an entity in the payload (always slot e1) and another one as trigger target.
+#[derive(Event, Serialize, Deserialize, Clone, Debug)]
+pub struct SMTrig {
+    pub id: u32,
+    pub e: Entity,
+}
+impl MapEntities for SMTrig {
+    fn map_entities<M: EntityMapper>(&mut self, mapper: &mut M) {
+        self.e = mapper.get_mapped(self.e);
+    }
 }
 /// Dependent server event on an unreliable channel (may be lost or reordered).
 #[derive(Event, Serialize, Deserialize, Clone, Debug)]
@@ -70,7 +81,7 @@ pub struct PendingEmits(pub Vec<Emit>);
 
 pub enum Emit {
     /// server event: type, id, mode, entity reference / trigger target
-    S { t: String, id: u32, mode: SendMode, e: Option<Entity> },
+    S { t: String, id: u32, mode: SendMode, e: Option<Entity>, payload: Entity },
     /// client event: type, id, *server* entity whose client counterpart is referenced / targeted
     /// (resolved through the entity map when the emission happens; a client-local entity otherwise)
     C { t: String, id: u32, e: Option<Entity> },
@@ -83,7 +94,7 @@ fn emit_pending(
 ) {
     for em in pending.0.drain(..) {
         match em {
-            Emit::S { t, id, mode, e } => match t.as_str() {
+            Emit::S { t, id, mode, e, payload } => match t.as_str() {
                 "SOrd" => {
                     commands.send_event(ToClients { mode, event: SOrd { id } });
                 }
@@ -93,6 +104,10 @@ fn emit_pending(
                 "SUnr" => {
                     commands.send_event(ToClients { mode, event: SUnr { id } });
                 }
+                "SMTrig" => match e {
+                    Some(e) => commands.server_trigger_targets(ToClients { mode, event: SMTrig { id, e: payload } }, e),
+                    None => commands.server_trigger(ToClients { mode, event: SMTrig { id, e: payload } }),
+                },
                 "SMap" => {
                     commands.send_event(ToClients { mode, event: SMap { id, e: e.unwrap_or(Entity::PLACEHOLDER) } });
                 }
@@ -170,6 +185,11 @@ fn on_strig(trigger: Trigger<STrig>, t: Option<Res<ServerUpdateTick>>, mut log: 
     let tb = if target == Entity::PLACEHOLDER { json!("none") } else { json!(target.to_bits()) };
     log.0.push(json!({"t": "STrig", "id": trigger.id, "upd": upd(t), "tbits": tb}));
 }
+fn on_smtrig(trigger: Trigger<SMTrig>, t: Option<Res<ServerUpdateTick>>, mut log: ResMut<EvLog>) {
+    let target = trigger.target();
+    let tb = if target == Entity::PLACEHOLDER { json!("none") } else { json!(target.to_bits()) };
+    log.0.push(json!({"t": "SMTrig", "id": trigger.id, "upd": upd(t), "tbits": tb}));
+}
 fn read_cord(mut r: EventReader<FromClient<COrd>>, mut log: ResMut<EvLog>) {
     for e in r.read() {
         log.0.push(json!({"t": "COrd", "id": e.event.id, "from": e.client.to_bits()}));
@@ -196,11 +216,13 @@ pub fn register(app: &mut App) {
         .add_mapped_server_event::<SMap>(Channel::Ordered)
         .add_server_trigger::<STrig>(Channel::Ordered)
         .add_server_event::<SUnr>(Channel::Unreliable)
+        .add_mapped_server_trigger::<SMTrig>(Channel::Ordered)
         .add_client_event::<COrd>(Channel::Ordered)
         .add_mapped_client_event::<CMap>(Channel::Ordered)
         .add_client_trigger::<CTrig>(Channel::Ordered)
         .add_client_event::<CUnr>(Channel::Unreliable)
         .add_systems(Update, (read_sord, read_sind, read_smap, read_cord, read_cmap, read_sunr, read_cunr))
         .add_observer(on_strig)
+        .add_observer(on_smtrig)
         .add_observer(on_ctrig);
 }
